@@ -46,7 +46,7 @@ class LargeCommunity(Attribute):
         if value:
             try:
                 length = len(value) / 4
-                value_list = list(struct.unpack('!%di' % length, value))
+                value_list = list(struct.unpack('!%dI' % length, value))
                 while value_list:
                     large_community.append("%s:%s:%s" % (value_list[0], value_list[1], value_list[2]))
                     value_list = value_list[3:]
